@@ -703,16 +703,10 @@ class VMF:
         if item is not self.spawn:  # Worldspawn is never in .entities, and always stays indexed.
             _remove_copyset(self.by_class, item['classname'].casefold(), item)
             _remove_copyset(self.by_target, item['targetname'].casefold() or None, item)
-        if 'nodeid' in item:
-            try:
-                node_id = int(item['nodeid'])
-            except (TypeError, ValueError):
-                pass
-            else:
-                self.node_id.discard(node_id)
 
-        # The entity's ID stays reserved until the object itself is destroyed (see Entity.__del__).
-        # Releasing it here as well would let it be handed out twice while this object is reused.
+        # The entity's ID and node ID stay reserved until the object itself is destroyed (see Entity.__del__).
+        # Releasing them here as well would let them be handed out twice while this object is reused:
+        # adding the entity again would then take back a node ID that another node received in between.
 
     def add_brushes(self, brushes: Iterable['Solid']) -> None:
         """Add multiple brushes to the map."""
@@ -3116,8 +3110,14 @@ class Entity(MutableMapping[str, str]):
     get_key = __contains__
 
     def __del__(self) -> None:
-        """Forget this entity's ID when the object is destroyed."""
+        """Forget this entity's ID and node ID when the object is destroyed."""
         self.map.ent_id.discard(self.id)
+        try:
+            node_id = int(self['nodeid', ''])
+        except (TypeError, ValueError):
+            pass
+        else:
+            self.map.node_id.discard(node_id)
 
     def get_bbox(self) -> tuple[Vec, Vec]:
         """Get two vectors representing the space this entity takes up."""
